@@ -477,6 +477,15 @@ func portDecodeCase(g *vlib.G, k dkind, doc portDoc, ps [3]portSpec) {
 	})
 }
 
+func inShort(short []portSpec, p portSpec) bool {
+	for _, s := range short {
+		if s == p {
+			return true
+		}
+	}
+	return false
+}
+
 func genDotPorts(g *vlib.G) {
 	specs := allPortSpecs()
 	for _, k := range dkinds {
@@ -517,7 +526,7 @@ func genDotPorts(g *vlib.G) {
 				}
 				for _, o := range short {
 					portDecodeCase(g, k, doc, [3]portSpec{sp, o, sp})
-					if g.Thorough() {
+					if g.Thorough() && !inShort(short, sp) {
 						portDecodeCase(g, k, doc, [3]portSpec{o, sp, o})
 					}
 				}
